@@ -126,6 +126,10 @@ def _random_obj(rng):
 
 
 def drive(task):
+    if task["kind"] == "sched_replay":
+        from .. import schedule_replay
+        yield from schedule_replay.drive_file(task["path"], task["lo"], task["hi"], task.get("stride", 1))
+        return
     rng = random.Random(task.get("seed", 0))
     if task["kind"] == "exh_nfa":
         for code in range(task["lo"], task["hi"], task.get("stride", 1)):
@@ -141,6 +145,10 @@ def drive(task):
 
 
 def redrive(src):
+    if src["kind"] == "gen_line":
+        from .. import schedule_replay
+        yield from schedule_replay.replay_line(src["line"])
+        return
     rng = random.Random(0)
     yield from _events_for(build(src), src["n"], src, rng)
 
@@ -160,6 +168,8 @@ RULE = ("every NFA of NFA(2,{a,b}) (exhaustive) + seeded random NFAs/DFAs with 1
 
 
 def nontrivial(e):
+    if e["op"] == "sched_replay":
+        return True
     if e["op"] == "ec_trace":
         return len(e["pops"]) >= 2
     fa = e["fa"]
@@ -177,7 +187,16 @@ def check(tier, seed):
                               "meaning": "for every state set, edge relation and start set the closure loop's result is "
                                          "exactly the least E-closed superset of the start set when it stops"}
 
-    return base.standard_check(PID, tier, seed, tasks(tier, seed), MODELS[tier], RULE, nontrivial, extra=extra,
+    from .. import schedule_replay
+    info = {}
+    ts = tasks(tier, seed) + schedule_replay.gen_tasks(PID, "ec", tier, info, quick_stride=2)
+    extra0 = extra
+
+    def extra(res, done):            # noqa
+        extra0(res, done)
+        res.notes["model_schedules_forced_onto_impl"] = info
+
+    return base.standard_check(PID, tier, seed, ts, MODELS[tier], RULE, nontrivial, extra=extra,
                                assumptions=["single-character symbols", "transition tables as the library's "
                                             "constructors build them (defaultdict or total dict)",
                                             "bounded universes: <= 6 states, words <= 4"])
